@@ -62,10 +62,24 @@ def _work(arg):
                             max_paths=fam.max_paths, ref_files=getattr(pg, 'ref_files', None))
     if fam.extra_check:
         cr.mismatches.extend(fam.extra_check(pg, case, cr))
+    # translation validation of the interpreter: every explored real path is replayed natively under its model
+    # (text, origin of every byte, error variant); a disagreement means the MIR interpreter or a std model is wrong
+    validated = 0
+    for rp in cr.explorers[0].results:
+        if rp.outcome != 'ok' or rp.value is None:
+            continue
+        try:
+            agrees, nat, conc = ppsuite.replay_real(case, rp.model, rp.value)
+        except Exception as e:
+            raise Inconclusive('native validation failed to run: %s' % e)
+        if not agrees:
+            raise Inconclusive('MIR interpreter and native run disagree on %s under %s: interpreter %s / native %s' % (
+                pg.label, conc, json.dumps({k: rp.value.get(k) for k in ('ok', 'text', 'error')})[:300], json.dumps({k: nat.get(k) for k in ('ok', 'text', 'error', 'panic', 'crash')})[:300]))
+        validated += 1
     out = {'family': fname, 'label': pg.label, 'text': case.text, 'real_paths': cr.real_paths, 'ref_paths': cr.ref_paths,
            'pairs': cr.pairs, 'queries': cr.queries + sum(e.solver_checks for e in cr.explorers),
            'solver_s': sum(e.solver_time for e in cr.explorers), 'steps': sum(e.steps for e in cr.explorers),
-           'models': cr.explorers[0].models_used, 'cex': [], 'obligations': cr.obligations[:5], 'case': case.describe()}
+           'models': cr.explorers[0].models_used, 'cex': [], 'obligations': cr.obligations[:5], 'case': case.describe(), 'validated': validated}
     seen = set()
     for mm in cr.mismatches:
         if mm['kind'] not in fam.kinds and mm['kind'] != 'panic':
@@ -171,6 +185,7 @@ def run(PID, level, families, args, rule, bounds, outside, assumptions, sample_s
             nsamp[fname] = nsamp.get(fname, 0) + 1
             ev.sample({'family': fname, 'program': r['label'], 'text': r['text'], 'symbolic': sample_sym,
                        'real_paths': r['real_paths'], 'reference_cases': r['ref_paths'], 'feasible_intersections': r['pairs']}, limit=24)
+        ev.cov['replayed'] += r.get('validated', 0)
         for cex in r['cex']:
             if cex['status'] != 'reproduced':
                 rep.inconc('counterexample of %s not reproduced natively (interpreter/model defect?): %s | native=%s' % (
